@@ -246,7 +246,7 @@ class SchemaGen(object):
         if st.kind == "scalar":
             if st.strict:
                 return "%s:%d" % (st.name, rng.randint(0, 99))
-            return rng.choice(["s", "free form", ""])
+            return rng.choice(["s", "free form", "", "s", True, False])
         if st.kind == "input":
             out = collections.OrderedDict()
             for f in st.input_fields:
@@ -673,7 +673,39 @@ def input_value_sdl(a):
     s = "%s: %s" % (a.name, type_str(a.type))
     if a.has_default:
         s += " = " + value_text(a.default)
-    return s
+    return s + getattr(a, "applied", "")
+
+
+TS_LOCATIONS = ["SCALAR", "OBJECT", "FIELD_DEFINITION", "ARGUMENT_DEFINITION", "INTERFACE", "UNION", "ENUM",
+                "ENUM_VALUE", "INPUT_OBJECT", "INPUT_FIELD_DEFINITION"]
+
+
+def apply_schema_directives(s, rng, p=0.3):
+    """Defines two type-system directives and applies them to random types and members (SDL rendering
+    only: the attribute ``applied`` holds the text). Returns the directive names."""
+    s.directives["tagA"] = SDirective("tagA", TS_LOCATIONS, [SInput("n", named("Int"))])
+    s.directives["tagB"] = SDirective("tagB", TS_LOCATIONS, [])
+
+    def some():
+        out = ""
+        if rng.random() < p:
+            out += " @tagA(n: %d)" % rng.randint(0, 9) if rng.random() < 0.7 else " @tagA"
+        if rng.random() < p:
+            out += " @tagB"
+        return out
+
+    for t in s.types.values():
+        t.applied = some()
+        for f in t.fields:
+            if getattr(f, "applied", None) is None:        # pooled fields: decide once
+                f.applied = some()
+                for a in f.args:
+                    a.applied = some()
+        for f in t.input_fields:
+            f.applied = some()
+        for v in t.values:
+            v.applied = some()
+    return ["tagA", "tagB"]
 
 
 def deprecation_sdl(reason):
@@ -697,7 +729,8 @@ def field_sdl(f, indent="  "):
             args = "(\n%s\n%s)" % ("\n".join(parts), indent)
         else:
             args = "(%s)" % ", ".join(input_value_sdl(a) for a in f.args)
-    return "%s%s%s%s: %s%s" % (out, indent, f.name, args, type_str(f.type), deprecation_sdl(f.deprecation))
+    return "%s%s%s%s: %s%s%s" % (out, indent, f.name, args, type_str(f.type), deprecation_sdl(f.deprecation),
+                                 getattr(f, "applied", None) or "")
 
 
 def type_members_sdl(st):
@@ -707,7 +740,8 @@ def type_members_sdl(st):
     if st.kind == "input":
         return [desc_text(f.description, "  ") + "  " + input_value_sdl(f) for f in st.input_fields]
     if st.kind == "enum":
-        return [desc_text(v.description, "  ") + "  " + v.name + deprecation_sdl(v.deprecation) for v in st.values]
+        return [desc_text(v.description, "  ") + "  " + v.name + deprecation_sdl(v.deprecation) + getattr(v, "applied", "")
+                for v in st.values]
     return []
 
 
@@ -718,14 +752,16 @@ KW = {"object": "type", "interface": "interface", "union": "union", "enum": "enu
 def type_sdl(st, members=None, interfaces=None, union_members=None, extend=False):
     head = ("extend " if extend else "") + KW[st.kind] + " " + st.name
     out = "" if extend else desc_text(st.description)
+    applied = "" if extend else getattr(st, "applied", "")
     if st.kind == "scalar":
-        return out + head
+        return out + head + applied
     if st.kind == "union":
         um = st.members if union_members is None else union_members
-        return out + head + (" = " + " | ".join(um) if um else "")
+        return out + head + applied + (" = " + " | ".join(um) if um else "")
     ifs = st.interfaces if interfaces is None else interfaces
     if st.kind == "object" and ifs:
         head += " implements " + " & ".join(ifs)
+    head += applied
     mem = type_members_sdl(st) if members is None else members
     if mem:
         return out + head + " {\n" + "\n".join(mem) + "\n}"
